@@ -113,6 +113,8 @@ func (g *Circle) Intersects(obj Object) bool {
 	switch other := obj.(type) {
 	case *Point:
 		return g.containsPoint(other.Center())
+	case *SimplePoint:
+		return g.containsPoint(other.Center())
 	case *Circle:
 		return other.Distance(g) <= (other.meters + g.meters)
 	case Collection:
